@@ -444,8 +444,9 @@ def _bind(helper, call, base_self):
     return bound
 
 
-def _expand(helper, call, base_self, want_value):
-    """(prelude statements, value expression or None)"""
+def _expand(helper, call, base_self, want_value, keep_names=()):
+    """(prelude statements, value expression or None).  keep_names: locals of the reference version of the calling function -- a helper local of that name
+    is (very likely) the caller's own variable that moved out with the extracted code, and keeps its name."""
     k = next(_counter)
     bound = _bind(helper, call, base_self)
     pre = []
@@ -459,11 +460,11 @@ def _expand(helper, call, base_self, want_value):
         if p not in helper.stored and (_plain(a) or _is_literal(a) or (helper.single_expr and loads.get(p, 0) <= 1)):
             mapping[p] = a
         else:
-            tmp = 'inl%d_%s' % (k, p)
+            tmp = p if p in keep_names else 'inl%d_%s' % (k, p)
             pre.append(ast.copy_location(ast.Assign(targets=[ast.Name(id=tmp, ctx=ast.Store())], value=a), call))
             mapping[p] = tmp
     for loc in helper.locals:
-        mapping[loc] = 'inl%d_%s' % (k, loc)
+        mapping[loc] = loc if loc in keep_names else 'inl%d_%s' % (k, loc)
     body = [_Subst(mapping).visit(_clone(st)) for st in helper.func.body]
     if helper.single_expr:
         return pre, body[0].value
@@ -505,12 +506,25 @@ def _expand(helper, call, base_self, want_value):
 
 
 class _Inliner:
-    def __init__(self, module, helpers):
+    def __init__(self, module, helpers, ref_shapes=None):
+        self.ref_shapes = ref_shapes or {}
+        self._keep = {}
         self.module = module
         self.helpers = helpers          # list of _Helper of this module
         self.count = 0
         self.failed = {}
         self.expanded = set()
+
+    def keep_names(self, ctx_funcs):
+        if not ctx_funcs or not self.ref_shapes:
+            return ()
+        f = ctx_funcs[-1]
+        key = '%s:%s' % (self.module.name, getattr(f, '_qualname', f.name))
+        if key not in self.ref_shapes:
+            return ()
+        if key not in self._keep:
+            self._keep[key] = {nm for _, ns in self.ref_shapes[key] for nm in ns}
+        return self._keep[key]
 
     def resolve(self, call, ctx_cls, ctx_funcs):
         f = call.func
@@ -608,7 +622,7 @@ class _Inliner:
                 h, base = me.resolve(n, ctx_cls, ctx_funcs)
                 if h is not None and h.ok and h.single_expr:
                     try:
-                        pre, val = _expand(h, n, base, True)
+                        pre, val = _expand(h, n, base, True, me.keep_names(ctx_funcs))
                     except NotInlinable as e:
                         me.failed[h.name] = str(e)
                         return n
@@ -650,7 +664,7 @@ class _Inliner:
                     break
                 want = not (isinstance(st, ast.Expr) and st.value is call)
                 try:
-                    pre, val = _expand(h, call, base, want)
+                    pre, val = _expand(h, call, base, want, self.keep_names(ctx_funcs))
                 except NotInlinable as e:
                     self.failed[h.name] = str(e)
                     break
@@ -747,7 +761,7 @@ def phase_b(repo, ref_funcs, ref_names, ref_shapes=None):
                 h.ok = False
         expanded = set()
         for _round in range(4):
-            inl = _Inliner(m, helpers)
+            inl = _Inliner(m, helpers, ref_shapes)
             m.tree.body = inl.block(m.tree.body, None, [])
             expanded |= inl.expanded
             if inl.count:
